@@ -2,19 +2,19 @@
 
 Reference syntax: 'a.b' absolute path from the root; each leading '!' moves one level up from the
 referring task ('!x' = sibling; for a top-level task '!x' is a top-level task). `precedes` on A naming B
-is the edge B depends on A. Gap durations are calendar time: min, h, d = 24 h, w = 7 d.
+is the edge B depends on A. Gap durations are calendar time: min, h, d = 24 h, w = 7 d, m = 30 d, y = 365 d.
 A leaf inherits the edges of every enclosing container.
 """
 import re
 from mc.render import walk_tasks
 
-UNIT = {"min": 60, "h": 3600, "d": 86400, "w": 7 * 86400}
+UNIT = {"min": 60, "h": 3600, "d": 86400, "w": 7 * 86400, "m": 30 * 86400, "y": 365 * 86400}
 
 
 def gap_seconds(g):
     if not g:
         return 0
-    m = re.match(r"(\d+(?:\.\d+)?)(min|h|d|w)$", g)
+    m = re.match(r"(\d+(?:\.\d+)?)(min|h|d|w|m|y)$", g)
     return float(m.group(1)) * UNIT[m.group(2)]
 
 
